@@ -62,6 +62,15 @@ static void run_one(int mode, long long nkeys, const std::vector<Op> &h, bool la
 					V *p = m->get(k); get.push_back(p ? value_of(*p) : -1);
 					auto it = m->find(k); find.push_back(it ? ((*it).template get<0>() == k ? value_of((*it).template get<1>()) : -2) : -1);
 					auto ct = cm.find(k); cfind.push_back(ct != cm.end() ? ((*ct).template get<0>() == k ? value_of((*ct).template get<1>()) : -2) : -1);
+					// const iteration from the found entry to the end visits at most size() entries, each a present key, none twice
+					if(ct != cm.end()) {
+						std::vector<long long> seen; size_t steps = 0;
+						for(auto it2 = ct; it2 != cm.end() && steps <= m->size() + 1; ++it2, ++steps) seen.push_back((*it2).template get<0>());
+						std::sort(seen.begin(), seen.end());
+						bool dup = std::adjacent_find(seen.begin(), seen.end()) != seen.end();
+						bool ghost = false; for(long long sk : seen) if(!m->get(sk)) ghost = true;
+						if(steps > m->size() || dup || ghost) cfind.back() = -3;
+					}
 				}
 				std::vector<std::vector<long long>> iter;
 				int guard = 0;
